@@ -8,7 +8,7 @@ use bio::data_structures::fmindex::{BiInterval, FMDIndex, FMIndex};
 use bio::data_structures::suffix_array::suffix_array;
 
 pub struct C06;
-const N_DIRECTED: u64 = 10;
+const N_DIRECTED: u64 = 11;
 
 fn sorted(mut v: Vec<usize>) -> Vec<usize> {
     v.sort();
@@ -33,7 +33,7 @@ impl C06 {
         let fmd = match guard(|| FMDIndex::from(FMIndex::new(&b, &l, &occ))) {
             Ok(f) => f,
             Err(p) => {
-                ctx.violation(&format!("fmd:from-panic:{}", panic_site(&p)), Obj::new().b("text", &text).s("what", &p).done());
+                ctx.violation(&format!("fmd:from-panic:{}", panic_site(&p)), Obj::new().b("text", tail(&text)).u("text_len", text.len() as u64).s("what", &p).done());
                 return;
             }
         };
@@ -41,7 +41,7 @@ impl C06 {
         let check_bi = |ctx: &mut Ctx, bi: &BiInterval, m: &[u8], what: &str, pat: &[u8]| -> bool {
             let f = bi.forward();
             let r = bi.revcomp();
-            let desc = |w: String| Obj::new().b("text", &text).b("pattern", pat).b("match", m).u("occ_rate", k as u64).s("what", &w).done();
+            let desc = |w: String| Obj::new().b("text", tail(&text)).u("text_len", text.len() as u64).b("pattern", pat).b("match", m).u("occ_rate", k as u64).s("what", &w).done();
             if f.upper > n || r.upper > n || f.lower > f.upper || r.lower > r.upper {
                 ctx.violation(&format!("{}:interval-out-of-range", what), desc(format!("{:?}", bi)));
                 return false;
@@ -71,7 +71,7 @@ impl C06 {
                     }
                 }
             }
-            let desc = |w: String| Obj::new().b("text", &text).b("pattern", pat).u("occ_rate", k as u64).s("what", &w).done();
+            let desc = |w: String| Obj::new().b("text", tail(&text)).u("text_len", text.len() as u64).b("pattern", pat).u("occ_rate", k as u64).s("what", &w).done();
             for i in 0..plen {
                 let lmin = rng.range(1, 5);
                 let res = guard(|| fmd.smems(pat, i, lmin));
@@ -109,7 +109,7 @@ impl C06 {
                 if !res.is_empty() && ctx.wants_sample("smems") {
                     ctx.sample("smems", || {
                         Obj::new()
-                            .b("text", &text)
+                            .b("text", tail(&text)).u("text_len", text.len() as u64)
                             .b("pattern", pat)
                             .u("i", i as u64)
                             .u("l", lmin as u64)
@@ -152,14 +152,14 @@ impl C06 {
             let r = guard(|| (fmd.backward_ext(&fmd.init_interval(), a), fmd.init_interval_with(a)));
             ctx.eval(1);
             match r {
-                Err(p) => ctx.violation(&format!("ext:panic:{}", panic_site(&p)), Obj::new().b("text", &text).s("what", &format!("init_interval + backward_ext('{}'): {}", a as char, p)).done()),
+                Err(p) => ctx.violation(&format!("ext:panic:{}", panic_site(&p)), Obj::new().b("text", tail(&text)).u("text_len", text.len() as u64).s("what", &format!("init_interval + backward_ext('{}'): {}", a as char, p)).done()),
                 Ok((e, w)) => {
                     let cnt = occurrences(&text, &[a]).len();
                     let (se, sw) = (e.forward().upper - e.forward().lower, w.forward().upper - w.forward().lower);
                     if se != cnt || sw != cnt || (cnt > 0 && (e.forward() != w.forward() || e.revcomp() != w.revcomp())) {
                         ctx.violation(
                             "ext:init-interval-inconsistent",
-                            Obj::new().b("text", &text).s("what", &format!("symbol '{}' occurs {} times; backward_ext(init_interval()) = {:?}, init_interval_with = {:?}", a as char, cnt, e, w)).done(),
+                            Obj::new().b("text", tail(&text)).u("text_len", text.len() as u64).s("what", &format!("symbol '{}' occurs {} times; backward_ext(init_interval()) = {:?}, init_interval_with = {:?}", a as char, cnt, e, w)).done(),
                         );
                     } else if cnt > 0 {
                         check_bi(ctx, &w, &[a], "init_interval_with", &[a]);
@@ -192,7 +192,7 @@ impl C06 {
                 bi
             });
             ctx.eval(2);
-            let desc = |w: String| Obj::new().b("text", &text).b("string", &u).u("occ_rate", k as u64).s("what", &w).done();
+            let desc = |w: String| Obj::new().b("text", tail(&text)).u("text_len", text.len() as u64).b("string", &u).u("occ_rate", k as u64).s("what", &w).done();
             let (bi, bi2) = match (r, r2) {
                 (Ok(a), Ok(b2)) => (a, b2),
                 (Err(p), _) | (_, Err(p)) => {
@@ -278,6 +278,26 @@ impl Monitor for C06 {
          both interval images exact). shape = (#SMEMs, hits both strands?, symbol classes, i position class, l, |p| class); non-trivial = |p| >= 2"
     }
     fn run_case(&mut self, ctx: &mut Ctx, g: u64, rng: &mut Rng) {
+        if g == N_DIRECTED - 1 {
+            // an index over more than 2^16 symbols: 2 x (35 000 + 4 000) + separators
+            if ctx.tiny() {
+                return;
+            }
+            let seqs = vec![rng.bytes_over(b"ACGT", 35_000), rng.bytes_over(b"ACGTN", 4_000)];
+            let mut pats = vec![];
+            for j in 0..4 {
+                let src = &seqs[j % 2];
+                let st = rng.usize(src.len() - 20);
+                let mut p = if j < 2 { src[st..st + 8 + 2 * j].to_vec() } else { dna::revcomp(&src[st..st + 11]) };
+                if j % 2 == 1 {
+                    p[3] = b'N';
+                }
+                pats.push(p);
+            }
+            ctx.count("indexes_over_more_than_65536_symbols", 1);
+            let k = *rng.pick(&[3u32, 64, 65]);
+            return self.case(ctx, rng, seqs, pats, k);
+        }
         if g < N_DIRECTED {
             let (seqs, pats, k): (Vec<&[u8]>, Vec<&[u8]>, u32) = match g {
                 0 => (vec![b"ATTC"], vec![b"ATT", b"GAAT", b"ATTCGAAT"], 3),
